@@ -19,6 +19,9 @@ def templates():
     out.append(("label-into-preexec", "형.♥ 형.. 항... 흑 항.?❤ 형.♥", "ab"))
     out.append(("braces-in-output", "혀어엉" + "." * 41 + " 항. 혀어어어어엉" + "." * 25 + " 항.", ""))
     out.append(("quote-backslash-output", "혀엉" + "." * 17 + " 항. 혀어어엉" + "." * 23 + " 항. 혀엉..... 항.", ""))
+    # reading programs on inputs with empty / blank lines, CRLF, missing final newline (the emitted Stack::pop refill)
+    for i, sin in enumerate(["a\n\nb\n", "\n\n\n", "x\r\n\r\ny", " \t\nz", "no newline"]):
+        out.append(("read-lines-%d" % i, "흑 항. 항. 항. 항. 항. 항.", sin))
     for n in (1, 2, 3, 4, 5, 7, 8, 9):
         # n area-carrying commands: shape of the dispatch tree
         out.append(("dispatch-%d" % n, " ".join("형" + "." * (i + 1) + "♥ 항." for i in range(n)), ""))
